@@ -219,7 +219,8 @@ def run(ctx):
     from ..report import Ctx as _LCtx
     from . import c09 as _lsrc
     _sub = _LCtx('C09', 'quick', ctx.src, 0)
-    _lsrc.run(_sub)
+    from ..report import run_lifted as _run_lifted
+    _run_lifted(ctx, _lsrc, _sub)
     _lifted = [f for f in _sub.findings if f.rule == 'C09.R2' and any(h in f.key for h in ('_process_activate', '_process_revoke', '_process_destroy'))]
     for f in _lifted:
         ctx.fail('C04.R5', f.key, f.site, f.message)
@@ -230,7 +231,8 @@ def run(ctx):
     from ..report import Ctx as _LCtx2
     from . import c05 as _c05
     _sub2 = _LCtx2('C05', 'quick', ctx.src, 0)
-    _c05.run(_sub2)
+    from ..report import run_lifted as _run_lifted
+    _run_lifted(ctx, _c05, _sub2)
     _l2 = [f for f in _sub2.findings if f.rule == 'C05.R3' and 'UsageMaskType' in f.key]
     for f in _l2:
         ctx.fail('C04.R6', f.key, f.site, f.message)
